@@ -336,6 +336,10 @@ def apply_rewrites(text, log, rules):
         text = _rule_d2(text, log)
     if 'R2' in rules:
         text = _rule_r2_r3(text, log)
+    if 'R10' in rules:
+        text, n10 = re.subn(r'\b([a-z_][a-z0-9_]*)\[\(\s*([^,\[\]()]+?)\s*,\s*([^,\[\]()]+?)\s*\)\]', r'\1.at(\2, \3)', text)
+        if n10:
+            log.append(('R10', n10))
     if 'R6' in rules:
         text = _rule_r6(text, log)
     if 'R8' in rules:
